@@ -24,8 +24,8 @@ func ruleHalvesWired(c *Ctx, r *R) {
 		return
 	}
 	n := 0
-	var check func(al *ssa.Alloc, owner string, depth int)
-	check = func(al *ssa.Alloc, owner string, depth int) {
+	var check func(al ssa.Value, owner string, depth int)
+	check = func(al ssa.Value, owner string, depth int) {
 		nt, ok := derefType(al.Type()).(*types.Named)
 		if !ok || depth > 2 {
 			return
@@ -59,6 +59,28 @@ func ruleHalvesWired(c *Ctx, r *R) {
 							continue
 						}
 					}
+				}
+				// ... or filled in place (&pipe[T]{sender: PipeSender[T]{c: c, …}, receiver: pipeStream[T]{…}}: both halves in
+				// one allocation): the fields of the nested struct are stored through its address inside the outer one
+				inPlace := false
+				for _, ref := range refsOf(al) {
+					if fa, ok := ref.(*ssa.FieldAddr); ok && fa.Field == i {
+						for _, r2 := range refsOf(fa) {
+							if _, isFA := r2.(*ssa.FieldAddr); isFA && !inPlace {
+								inPlace = true
+								sub := owner
+								if depth == 0 {
+									if nt2, isN := st.Field(i).Type().(*types.Named); isN {
+										sub = nt2.Obj().Name()
+									}
+								}
+								check(fa, sub, depth+1)
+							}
+						}
+					}
+				}
+				if inPlace {
+					continue
 				}
 				n++
 				r.violated("stream.Pipe|"+owner+"."+st.Field(i).Name(), al.Pos(), "the "+st.Field(i).Name()+" group of the "+owner+" that Pipe builds is not set: its channels are nil")
